@@ -30,7 +30,7 @@ _Bool a_live[NN]; unsigned a_retired[NN], a_deleted[NN];
 #define DEAD 2
 
 /* ---- harness inputs ---- */
-unsigned in_len; _Bool in_lag; word_t in_val;
+unsigned in_len, in_lag; word_t in_val;      /* in_lag: 0/1 (unsigned so that the trace prints a number) */
 
 /* ---- ghost ---- */
 unsigned g_alloc_count, g_delete_count, g_fresh, g_ctor_T, g_dtor_T, g_moves; _Bool g_alloc_may_fail; int mon_check;       /* mon_check: 0 off, 1 push, 2 pop_node */
@@ -217,7 +217,7 @@ void h_ctor(void) {
 void h_push(void) {
   reset_ghost();
   struct msq q;
-  in_len = nondet_uint(); XV_ASSUME(in_len >= 1 && in_len <= 3); in_lag = nondet_bool();
+  in_len = nondet_uint(); XV_ASSUME(in_len >= 1 && in_len <= 3); in_lag = nondet_bool() ? 1 : 0;
   setup_list(&q, in_len, in_lag, 0);
   struct node pre[NN]; for (unsigned i = 0; i < NN; i++) pre[i] = snap(i);
   in_val = nondet_word();
@@ -242,7 +242,7 @@ void h_push(void) {
 void h_pop_node(void) {
   reset_ghost();
   struct msq q;
-  in_len = nondet_uint(); XV_ASSUME(in_len >= 1 && in_len <= 3); in_lag = nondet_bool();
+  in_len = nondet_uint(); XV_ASSUME(in_len >= 1 && in_len <= 3); in_lag = nondet_bool() ? 1 : 0;
   setup_list(&q, in_len, in_lag, 0);
   struct node pre[NN]; for (unsigned i = 0; i < NN; i++) pre[i] = snap(i);
   word_t tail0 = q._tail;
@@ -270,7 +270,7 @@ void h_pop_node(void) {
 word_t stub_ret; unsigned stub_calls;
 static guard_ptr stub_pop_node(struct msq* self) { stub_calls++; return stub_ret; }
 static void setup_pop(struct msq* q) {
-  in_len = nondet_uint(); XV_ASSUME(in_len >= 1 && in_len <= 3); in_lag = nondet_bool();
+  in_len = nondet_uint(); XV_ASSUME(in_len >= 1 && in_len <= 3); in_lag = nondet_bool() ? 1 : 0;
   setup_list(q, in_len, in_lag, 0);
 #ifndef XV_REAL_POP_NODE
   /* contract of pop_node: null, or the node that has just become the dummy, still holding its T.  (The list shape does not matter here:
@@ -322,7 +322,7 @@ unsigned in_extra;
 void h_dtor(void) {
   reset_ghost();
   struct msq q;
-  in_len = nondet_uint(); XV_ASSUME(in_len >= 1 && in_len <= 3); in_lag = nondet_bool();
+  in_len = nondet_uint(); XV_ASSUME(in_len >= 1 && in_len <= 3); in_lag = nondet_bool() ? 1 : 0;
   in_extra = nondet_uint(); XV_ASSUME(in_extra <= NN - in_len);
   setup_list(&q, in_len, in_lag, in_extra);
   struct node pre[NN]; for (unsigned i = 0; i < NN; i++) pre[i] = snap(i);
